@@ -328,6 +328,6 @@ def run(ctx):
     ctx.floor("random_sequences", ctx.pick(4500, 40000))
     for h in ("add_changed", "add_rejected", "move_changed", "move_rejected", "rename_changed", "rename_rejected",
               "reha_changed", "reha_rejected", "remove_changed", "remove_rejected"):
-        ctx.floor(h, ctx.pick(100, 1000))
+        ctx.floor(h, ctx.pick(500, 5000))
     ctx.floor("class_invariant_evaluations", ctx.pick(5000, 60000))     # zero => the attachment got lost
-    ctx.floor("distinct_nontrivial", ctx.pick(5000, 40000))
+    ctx.floor("distinct_nontrivial", ctx.pick(10000, 60000))
